@@ -587,6 +587,13 @@ func (e *Env) StartClients() {
 func (e *Env) execOp(ci, k int, op *Op) {
 	rec := &OpRec{Client: ci, Idx: k, Op: op, Inv: e.Seq(), TInv: e.Now(), Ret: -1}
 	e.Ops = append(e.Ops, rec)
+	// a panic that leaves the engine through a public call and reaches the caller's goroutine is
+	// a verdict about the engine (it used to kill the worker process: "cannot decide", exit 2)
+	defer func() {
+		if x := recover(); x != nil {
+			e.Violate(e.C.Prop+"/panic-reached-caller", op.K, "client %d op %d (%s %s): the call panicked in the caller's goroutine: %v", ci, k, op.K, op.Tag, x)
+		}
+	}()
 	if e.hooks.BeforeOp != nil {
 		e.hooks.BeforeOp(ci, op)
 	}
